@@ -132,6 +132,15 @@ deriving DecidableEq, Repr
 def Res.name : Res → String
   | .failed => "failed" | .succ => "succ" | .existed => "existed" | .qnless => "qnless" | .nopre => "nopre"
 
+/-- capacity of the verifiedBlocks LRU (`lru.New(20)` in `initBlockChain`; re-extracted by T-gen) -/
+def verifiedCap : Nat := 20
+
+/-- `lru.Cache.Add` on a key list kept most-recent-first: (re)insert at the front, evict the oldest beyond capacity -/
+def lruAdd (cap : Nat) (l : List Nat) (k : Nat) : List Nat := (k :: l.filter (fun h => h != k)).take cap
+
+/-- `lru.Cache.Get`: a hit moves the key to the front -/
+def lruGet (l : List Nat) (k : Nat) : List Nat := if l.contains k then k :: l.filter (fun h => h != k) else l
+
 /-- `chainPvGreatThanRemote(local, remote)`. -/
 def pvGreater (loc rem : Block) : Bool :=
   if loc.pv > rem.pv then true
@@ -195,7 +204,7 @@ def verify (s : St) (b : Block) : St × Bool :=
   | some _ =>
     if b.txs.any (fun t => (s.disk.executed t).isSome) then (s, false)   -- Proposal008
     else if !b.valid then (s, false)                                       -- checkStates
-    else (s.setMem { s.mem with verified := b.hash :: s.mem.verified }, true)
+    else (s.setMem { s.mem with verified := lruAdd verifiedCap s.mem.verified b.hash }, true)
 
 /-- `insertBlock` up to `saveStates`: intent mark, hash index, height index -/
 def insertA (s : St) (b : Block) : St :=
@@ -219,16 +228,27 @@ def insertB (s : St) (b : Block) : St :=
   let s := s.setMem { s.mem with latest := b }
   s.write .delAddMark
 
+/-- the verified cache in `saveStates`: `Get` (hit: move to front), else `checkStates` again and `Add`;
+    `none` when the re-execution does not reproduce the roots -/
+def saveStatesCache (verified : List Nat) (b : Block) : Option (List Nat) :=
+  if verified.contains b.hash then some (lruGet verified b.hash)
+  else if b.valid then some (lruAdd verifiedCap verified b.hash)
+  else none
+
 /-- `insertBlock`; `cont` is `addBlockOnChain` for the orphan parked under this block
     (`successOnChainCallBack`). -/
 def insertBlock (cont : St → Block → St) (s : St) (b : Block) : St × Res :=
   let s := insertA s b
-  -- saveStates: cached verification result, else execute again (failure leaves the mark behind)
-  if !(s.mem.verified.contains b.hash) && !b.valid then (s, .failed) else
-  let s := insertB s b
-  match s.mem.future b.hash with
-  | some f => (cont s f, .succ)
-  | none => (s, .succ)
+  -- saveStates: cached verification result (a hit refreshes the entry), else execute again
+  -- (failure leaves the mark behind)
+  match saveStatesCache s.mem.verified b with
+  | none => (s, .failed)
+  | some v =>
+    let s := s.setMem { s.mem with verified := v }
+    let s := insertB s b
+    match s.mem.future b.hash with
+    | some f => (cont s f, .succ)
+    | none => (s, .succ)
 
 /-- `addBlockOnChain` (inner, recursive). `fuel` bounds the re-entries (after a
     reorg, and for parked orphans). -/
